@@ -125,6 +125,13 @@ Theorem C01_grad_correct_dipoleAngle : forall cell pbc co e ids c fit g2 g3 (s :
 Proof. exact cvc_grad_correct_dipoleAngle. Qed.
 Print Assumptions C01_grad_correct_dipoleAngle.
 
+Theorem C01_grad_correct_distanceInv : forall cell pbc co e ex g1 g2 (s : SYS),
+  grp_ok0 s g1 -> grp_ok0 s g2 -> plain pbc cell -> (1 <= ex)%nat ->
+  inv_ok (gd_pos (gdata_of Rops s g1)) (gd_pos (gdata_of Rops s g2)) ->       (* non-empty groups, no two atoms coincide *)
+  cvc_grad_correct cell (mkCvc co e (KDistanceInv pbc ex) [g1; g2]) s.
+Proof. exact cvc_grad_correct_distanceInv. Qed.
+Print Assumptions C01_grad_correct_distanceInv.
+
 Theorem C01_grad_correct_inertia : forall cell co e ids (s : SYS),
   ids_ok s ids -> ids <> [] ->
   cvc_grad_correct cell (mkCvc co e KInertia [self_centred ids]) s.
